@@ -59,6 +59,20 @@ def run(ctx):
     bdir = vlib.build_models()
     quick = ctx.tier == "quick"
     lines, bad, st = run_once(bins, bdir, ctx.seed, 3000 if quick else 200000)
+    # wall-clock bounds: a machine that is busy can delay one wake-up by more than the slack; a
+    # scenario counts only if it misses its bound in three runs out of three
+    def timing(b):
+        return b.startswith("WaitTimeout (returned outside") or b.startswith("WaitTimeout (did not return promptly")
+    def key(b):
+        f = b.split(": ", 1)[1].split()
+        return (f[1], f[2])
+    retried = 0
+    while bad and any(timing(b) for b in bad) and retried < 2:
+        retried += 1
+        l2, bad2, st2 = run_once(bins, bdir, ctx.seed, 200)
+        again = {key(b) for b in bad2 if timing(b)}
+        bad = [b for b in bad if not timing(b) or key(b) in again]
+    ctx.cov["timing_scenarios_rerun"] = retried
     other = [l for l in (lines or []) if l[0] in "MAW"]
     ctx.cov.update({
         "evaluations": int(st.get("cases", 0)) + len(other),
